@@ -15,6 +15,7 @@ net/http's serialisation, URL escaping, TLS and connection pooling are library b
 import Pandora.Proofs.C09
 import Pandora.Proofs.C09Conn
 import Pandora.Proofs.C09Volley
+import Pandora.Proofs.C09R6
 import Pandora.Bridge.HttpWire
 
 namespace Pandora.Props.C09
@@ -495,7 +496,7 @@ def optsOf (ro : ReuseOpts) : List TransportOpt :=
   (match ro.mich with | some v => [("max-idle-conns-per-host", v)] | none => [])
 
 /-- the transport of `optsOf ro`, field by field: the given value, else pandora's default -/
-theorem transportOf_optsOf (ro : ReuseOpts) :
+theorem C09_transportOf_optsOf (ro : ReuseOpts) :
     (transportOf (optsOf ro)).idleConnTimeout = ro.idle.getD (90 * sec) ∧
     (transportOf (optsOf ro)).responseHeaderTimeout = ro.rht.getD 0 ∧
     (transportOf (optsOf ro)).maxIdleConns = ro.mic.getD 0 ∧
@@ -513,7 +514,7 @@ theorem C09_reuse_expected_sound (ro : ReuseOpts) (mp md inst : Nat) (fs : List 
     (h : reuseExpected ro mp md = true) (hg : ∀ f ∈ fs, f.gun < inst) (hc : ∀ f ∈ fs, f.close = false)
     (hp : ∀ f ∈ fs, f.pause ≤ mp ∧ f.delay ≤ md) :
     tconnRun (transportOf (optsOf ro)) inst fs ≤ inst := by
-  obtain ⟨t1, t2, t3, t4, t5⟩ := transportOf_optsOf ro
+  obtain ⟨t1, t2, t3, t4, t5⟩ := C09_transportOf_optsOf ro
   simp only [reuseExpected, docIdleConnTimeout, Bool.and_eq_true, Bool.or_eq_true] at h
   obtain ⟨⟨⟨h1, h2⟩, h3⟩, h4⟩ := h
   have hk : keeps (transportOf (optsOf ro)) = true := by
@@ -793,7 +794,7 @@ theorem C09_response_header_timeout_only_against_late_answers (c c' : TransportC
   simp only [tconnStep, a, b, hk, he]
 
 /-- an answer that comes at once is never lost, whatever the response-header timeout -/
-theorem responseLost_zero (t : Transport) : responseLost t 0 = false := by
+theorem C09_responseLost_zero (t : Transport) : responseLost t 0 = false := by
   simp only [responseLost, Bool.and_eq_false_iff, decide_eq_false_iff_not]
   by_cases h : 0 < t.responseHeaderTimeout
   · right; simp only [Int.natCast_zero]; omega
@@ -1118,5 +1119,86 @@ example : (⟨0, true, true, 5, 7⟩ : TFlight).volley = { k := 1, closing := 1,
 example : (58 ∉ ([88, 45, 65] : Str)) ∧ trim ([88, 45, 65] : Str) ≠ [] ∧
     (decodeHeader (headerLine ([88, 45, 65], [32, 119, 58, 99, 32, 32, 120, 93, 121, 32]))).toOption = some ([88, 45, 65], [119, 58, 99, 32, 32, 120, 93, 121]) ∧
     (decodeHeader (headerLine ([88, 58, 65], [118]))).toOption = some ([88], [65, 58, 118]) := by decide
+
+/-! ### round 6 — COMPOSITION with C07: from the BYTES of the ammo file to what `Client.Do` is handed
+
+`Pandora.Model.C07.uriPassLim` / `uripostPass` are C07's models of uriDecoder.Scan / uripostDecoder.Scan over the bytes of the file
+(bufio line reading, TrimSpace, `[k: v]` lines through util.DecodeHeader, the URL / tag cut, size-prefixed bodies), tied to
+decoders/uri.go, uripost.go by C07's own regenerated area and bridge lemmas and imported here read-only. The theorems below do not
+assume what the decoder hands to `Ammo.Setup`: they quantify over ALL file contents, take whatever ammo C07's model decodes
+and carry it through C09's model (add-if-absent merge with the `headers` option → http.NewRequest → Enrich → Shoot). The two
+models were written independently (bytes as `UInt8` / `Nat`, single-valued / multi-valued header maps); that they fit is proved
+(`Pandora.Proofs.C09R6.canonKey_eq`: the two models of CanonicalMIMEHeaderKey agree on every key, `toHdr_hset`: so do the two
+models of http.Header.Set). -/
+
+open Pandora.Proofs.C09R6 in
+/-- **uri file → wire.** For EVERY file content, line limit, `headers` option list and gun: each ammo the uri decoder model
+of C07 reads from the file is built and shot without panic; the request handed to `Client.Do` is a GET without body whose
+request-URI is `URL.RequestURI()` of the ammo's URL; every header other than Host is the FILE's (the header map in effect at
+that line, as C07 computes it) when the file defines it, else the option's, else absent; Host is the URL's authority, else
+the file's / option's Host, else the target's host; scheme by `ssl`, dialed at the resolved target. -/
+theorem C09_uri_file_to_wire (lim : Option Nat) (file : Pandora.Model.C07.Bytes) (confL : List (Str × Str)) (g : Gun)
+    (a : Pandora.Model.C07.Ammo) (ha : a ∈ (Pandora.Model.C07.uriPassLim lim file []).1) :
+    ∃ r, buildAmmo (toStr a.method) (toStr a.url) (toStr a.body) (mergeUri (toHdr a.hdrs) (confHdr confL)) = some r ∧
+      (shoot g r).method = GET ∧ (shoot g r).uri = (splitURL (toStr a.url)).2 ∧ (shoot g r).body = [] ∧
+      (shoot g r).dial = g.targetResolved ∧ (shoot g r).scheme = (if g.ssl then Scheme.https else Scheme.http) ∧
+      (∀ n, n ≠ hostKey → hget (shoot g r).header n = match hget (toHdr a.hdrs) n with
+          | some x => some x
+          | none => hget (confHdr confL) n) ∧
+      (shoot g r).host =
+        (if (splitURL (toStr a.url)).1 ≠ [] then (splitURL (toStr a.url)).1
+         else if mapsHost (toHdr a.hdrs) (confHdr confL) ≠ [] then mapsHost (toHdr a.hdrs) (confHdr confL)
+         else hostWithoutPort g.target) := by
+  obtain ⟨ok, hb⟩ := uriPass_ok lim file [] WF_nil a ha
+  obtain ⟨r, h1, h2, h3, h4, h5, h6, h7, h8⟩ := wire_of_ammo _ a ok confL g
+  refine ⟨r, h1, ?_, h3, ?_, h5, h6, h7, h8⟩
+  · rw [h2]; decide
+  · rw [h4, hb]; rfl
+
+open Pandora.Proofs.C09R6 in
+/-- **uripost file → wire.** The same for the uripost decoder model of C07 (with or without the last-line repair): a POST whose
+body is the bytes C07's model cut out of the file. -/
+theorem C09_uripost_file_to_wire (fixed : Bool) (file : Pandora.Model.C07.Bytes) (confL : List (Str × Str)) (g : Gun)
+    (a : Pandora.Model.C07.Ammo) (ha : a ∈ (Pandora.Model.C07.uripostPass fixed file []).1) :
+    ∃ r, buildAmmo (toStr a.method) (toStr a.url) (toStr a.body) (mergeUri (toHdr a.hdrs) (confHdr confL)) = some r ∧
+      (shoot g r).method = POST ∧ (shoot g r).uri = (splitURL (toStr a.url)).2 ∧ (shoot g r).body = toStr a.body ∧
+      (shoot g r).dial = g.targetResolved ∧ (shoot g r).scheme = (if g.ssl then Scheme.https else Scheme.http) ∧
+      (∀ n, n ≠ hostKey → hget (shoot g r).header n = match hget (toHdr a.hdrs) n with
+          | some x => some x
+          | none => hget (confHdr confL) n) ∧
+      (shoot g r).host =
+        (if (splitURL (toStr a.url)).1 ≠ [] then (splitURL (toStr a.url)).1
+         else if mapsHost (toHdr a.hdrs) (confHdr confL) ≠ [] then mapsHost (toHdr a.hdrs) (confHdr confL)
+         else hostWithoutPort g.target) := by
+  have ok := uripostPass_ok fixed file [] WF_nil a ha
+  obtain ⟨r, h1, h2, h3, h4, h5, h6, h7, h8⟩ := wire_of_ammo _ a ok confL g
+  refine ⟨r, h1, ?_, h3, h4, h5, h6, h7, h8⟩
+  rw [h2]; decide
+
+open Pandora.Proofs.C09R6 in
+/-- what "the file defines header k" means in C07's terms: the lookups of the two models correspond -/
+theorem C09_file_header_lookup (h : Pandora.Model.C07.Hdrs) (k : Pandora.Model.C07.Bytes) :
+    hget (toHdr h) (toStr k) = (Pandora.Model.C07.hget h k).map fun v => [toStr v] := hget_toHdr h k
+
+open Pandora.Proofs.C09R6 in
+/-- the two independently written models of textproto.CanonicalMIMEHeaderKey (C07: bytes, C09: naturals) agree on EVERY key -/
+theorem C09_canon_models_agree (k : Pandora.Model.C07.Bytes) :
+    toStr (Pandora.Model.C07.canonKey k) = canon (toStr k) := canonKey_eq k
+
+-- non-vacuity: the file `[x-a: f]\n/a t\n` has an ammo (C07's model computes it), with the header map {X-A: f}; with the option
+-- `[X-A: conf]`, `[X-B: conf]` the request carries the FILE's X-A and the option's X-B
+example : (Pandora.Model.C07.uriPassLim none [91, 120, 45, 97, 58, 32, 102, 93, 10, 47, 97, 32, 116, 10] []).1 =
+    [{ method := Pandora.Model.C07.getBytes, url := [47, 97], body := [], tag := [116], hdrs := [([88, 45, 65], [102])] }] := by
+  decide +kernel
+
+open Pandora.Proofs.C09R6 in
+example :
+    (buildAmmo GET [47, 97] [] (mergeUri (toHdr [([88, 45, 65], [102])]) (confHdr [([88, 45, 65], [99]), ([88, 45, 66], [99])]))).map
+      (fun r => (r.header, r.uri)) = some ([([88, 45, 65], [[102]]), ([88, 45, 66], [[99]])], [47, 97]) := by decide
+
+-- uripost: `5 /p\nhello\n` is one POST with body `hello`
+example : ((Pandora.Model.C07.uripostPass true [53, 32, 47, 112, 10, 104, 101, 108, 108, 111, 10] []).1.map
+    fun a => (a.method, a.url, a.body)) = [(Pandora.Model.C07.postBytes, [47, 112], [104, 101, 108, 108, 111])] := by
+  decide +kernel
 
 end Pandora.Props.C09
